@@ -387,12 +387,18 @@ theorem noBad_of_dir {t : T} (h : WfFacts t) {k : FsPath} (hd : isDir t k = true
   obtain ⟨m, hm, hk⟩ := isDir_iff.1 (prefixes_dirs h hd q hq)
   rw [hn] at hm; cases hm; exact hk
 
+/-- `stat(q).is_dir()` of an existing node: a directory, or a link recorded as "to a directory" -/
+theorem statIsDir_of_get (hc : Ctx env t) {q : FsPath} {n : Node} (hg : get t q = some n) :
+    statIsDir t q = (decide (n.kind = .dir) || decide (n.kind = .link true)) := by
+  have := statIsDir_eq hc q
+  rw [hg] at this; exact this
+
 theorem sim_mkdirP (h : Ctx env t) (p : Str) :
     Sim (Stdfs.step env t (.mkdirP p)) (withPath env t p fun a => liftR .path (TreeFs.mkdir t a 0o755)) := by
   simp only [Stdfs.step, Stdfs.mkdirP]
   refine sim_withPath h.cwd p _ _ _ ?_
   intro a _
-  ssimp [exists_eq_isSome h.wf h.links, isDirK_eq h.wf]
+  ssimp [exists_eq_isSome h.wf h.links]
   cases hg : get t a with
   | none =>
     have hl : isLinkToDir t a = false := by unfold isLinkToDir; rw [hg]
@@ -410,20 +416,19 @@ theorem sim_mkdirP (h : Ctx env t) (p : Str) :
       simp only [liftR]
       exact sim_err _ _ (TEquiv.refl _)
   | some n =>
-    ssimp [Option.isSome_some]
+    ssimp [Option.isSome_some, statIsDir_of_get h hg]
     cases hk : n.kind with
     | dir =>
       have hd : isDir t a = true := isDir_of_get hg hk
       have hl : isLinkToDir t a = false := by unfold isLinkToDir; simp [hg, hk]
       have hnb := noBad_of_dir h.wf hd
       rw [mkdir_noBad _ hl hnb]
-      ssimp [hd, mkdirLoop_all_dirs _ _ _ (prefixes_dirs h.wf hd), liftR]
+      ssimp [decide_true, Bool.true_or, mkdirLoop_all_dirs _ _ _ (prefixes_dirs h.wf hd), liftR]
       exact sim_same (by simp)
     | file =>
-      have hd : isDir t a = false := isDir_false_of_kind hg (by simp [hk])
       have hl : isLinkToDir t a = false := by unfold isLinkToDir; simp [hg, hk]
       rw [mkdir_bad _ hl ⟨a, self_mem_prefixes a, n, hg, by simp [hk]⟩]
-      ssimp [hd, liftR]
+      ssimp [reduceCtorEq, decide_false, Bool.or_self, liftR]
       exact sim_err _ _ (TEquiv.refl _)
     | link b =>
       cases b with
@@ -433,10 +438,9 @@ theorem sim_mkdirP (h : Ctx env t) (p : Str) :
         simp only [hl, if_true, liftR]
         exact sim_unspec _ _
       | false =>
-        have hd : isDir t a = false := isDir_false_of_kind hg (by simp [hk])
         have hl : isLinkToDir t a = false := by unfold isLinkToDir; simp [hg, hk]
         rw [mkdir_bad _ hl ⟨a, self_mem_prefixes a, n, hg, by simp [hk]⟩]
-        ssimp [hd, liftR]
+        ssimp [reduceCtorEq, decide_false, Bool.or_self, Kind.link.injEq, Bool.false_eq_true, liftR]
         exact sim_err _ _ (TEquiv.refl _)
 
 /-! ### mkdir_m -/
@@ -527,6 +531,7 @@ def mkStepS (mode : Nat) (q : FsPath) : SM Unit := do
   if !(Posix.exists t q) then
     sysM (Posix.mkdir · q 0o777)
     sysM (Posix.chmod · q mode)
+  else if !(statIsDir t q) then SM.fail .isNotDir
 
 theorem mkdirM_eq (p : Str) (mode : Nat) :
     Stdfs.mkdirM env p mode = (do
@@ -548,10 +553,15 @@ theorem exists_missing {t : T} {k : FsPath} (hg : get t k = none) : Posix.exists
   obtain ⟨e, he⟩ := stat_missing hg
   rw [he]
 
-theorem mkStepS_skip {t : T} {q : FsPath} (mode : Nat) (hx : Posix.exists t q = true) :
-    mkStepS mode q t = (.ok (), t) := by
+theorem mkStepS_skip {t : T} {q : FsPath} (mode : Nat) (hx : Posix.exists t q = true)
+    (hd : statIsDir t q = true) : mkStepS mode q t = (.ok (), t) := by
   unfold mkStepS
-  ssimp [hx]
+  ssimp [hx, hd]
+
+theorem mkStepS_notDir {t : T} {q : FsPath} (mode : Nat) (hx : Posix.exists t q = true)
+    (hd : statIsDir t q = false) : mkStepS mode q t = (.err .isNotDir, t) := by
+  unfold mkStepS
+  ssimp [hx, hd]
 
 theorem mkStepS_new {t : T} (h : WfFacts t) {q : FsPath} {mode : Nat} (hm : mode < 0o10000)
     (hne : q ≠ []) (hd : isDir t q.dropLast = true) (hg : get t q = none) :
@@ -578,7 +588,8 @@ theorem mkdirM_loop_ok {t : T} (h : WfFacts t) {mode : Nat} (hm : mode < 0o10000
     rw [mkdirLoop_all_dirs _ _ _ (prefixes_dirs h h.root)]
     obtain ⟨m, hm', hk'⟩ := isDir_iff.1 h.root
     show ([[]] : List FsPath).forM (mkStepS mode) t = _
-    rw [sforM_cons_apply, mkStepS_skip _ (exists_of_nonlink h hm' (by simp [hk', isLinkKind]))]
+    rw [sforM_cons_apply, mkStepS_skip _ (exists_of_nonlink h hm' (by simp [hk', isLinkKind]))
+      (statIsDir_of_dir h hm' hk')]
     rfl
   | succ n ih =>
     intro k hk hnb
@@ -601,96 +612,116 @@ theorem mkdirM_loop_ok {t : T} (h : WfFacts t) {mode : Nat} (hm : mode < 0o10000
           have := r2.keep k m' hg
           rw [hg1] at this; cases this
           exact hnb k (self_mem_prefixes k) m hg
-      rw [mkStepS_skip _ (exists_of_nonlink r2.wf hg1 (by simp [hmk, isLinkKind]))]
+      rw [mkStepS_skip _ (exists_of_nonlink r2.wf hg1 (by simp [hmk, isLinkKind]))
+        (statIsDir_of_dir r2.wf hg1 hmk)]
       simp only [hmk, if_true]
 
-/-- the loop of `mkdir_m` below something that is not a directory fails, before changing anything -/
+/-- the loop of `mkdir_m` fails, before changing anything, as soon as an existing prefix (the path
+    itself included) is not a directory -/
 theorem mkdirM_loop_bad (hc : Ctx env t) {mode : Nat} (hm : mode < 0o10000) : ∀ (n : Nat) (k : FsPath),
-    k.length = n → get t k = none → (∃ q ∈ prefixes k, ∃ m, get t q = some m ∧ m.kind ≠ .dir) →
+    k.length = n → (∀ m, get t k = some m → m.kind ≠ .link true) →
+    (∃ q ∈ prefixes k, ∃ m, get t q = some m ∧ m.kind ≠ .dir) →
     ∃ e, (prefixes k).forM (mkStepS mode) t = (.err e, t) := by
   have h := hc.wf
   intro n
   induction n with
   | zero =>
-    intro k hk hg _
+    intro k hk _ ⟨q, hq, m, hqm, hmk⟩
     have : k = [] := List.eq_nil_of_length_eq_zero hk
     subst this
-    obtain ⟨m, hm', _⟩ := isDir_iff.1 h.root
-    rw [hg] at hm'; cases hm'
+    exfalso
+    obtain ⟨m', hm', hmk'⟩ := isDir_iff.1 (prefixes_dirs h h.root q hq)
+    rw [hqm] at hm'; cases hm'; exact hmk hmk'
   | succ n ih =>
-    intro k hk hg ⟨q, hq, m, hqm, hmk⟩
+    intro k hk hnl ⟨q, hq, m, hqm, hmk⟩
     have hne : k ≠ [] := by intro h0; subst h0; simp at hk
-    have hqd : q ∈ prefixes k.dropLast := by
-      rw [prefixes_dropLast hne, List.mem_append] at hq
-      rcases hq with h1 | h1
-      · exact h1
-      · simp only [List.mem_singleton] at h1; subst h1; rw [hg] at hqm; cases hqm
     rw [prefixes_dropLast hne, sforM_append_apply]
-    cases hgd : get t k.dropLast with
+    cases hgk : get t k with
+    | some mk =>
+      -- the path itself exists: everything above it is a directory and is skipped
+      have hpd : isDir t k.dropLast = true := h.parent k mk hgk hne
+      have h1 := mkdirM_loop_ok h hm _ k.dropLast rfl (noBad_of_dir h hpd)
+      rw [mkdirLoop_all_dirs _ _ _ (prefixes_dirs h hpd)] at h1
+      have hmkd : mk.kind ≠ .dir := by
+        intro hd
+        rw [prefixes_dropLast hne, List.mem_append] at hq
+        rcases hq with h2 | h2
+        · obtain ⟨m', hm', hmk'⟩ := isDir_iff.1 (prefixes_dirs h hpd q h2)
+          rw [hqm] at hm'; cases hm'; exact hmk hmk'
+        · simp only [List.mem_singleton] at h2; subst h2
+          rw [hgk] at hqm; cases hqm; exact hmk hd
+      have hx : Posix.exists t k = true := by rw [exists_eq_isSome h hc.links, hgk]; rfl
+      have hsd : statIsDir t k = false := by
+        rw [statIsDir_of_get hc hgk]
+        simp [hmkd, hnl mk hgk]
+      rw [h1]
+      simp only [sforM_cons_apply, mkStepS_notDir _ hx hsd]
+      exact ⟨_, rfl⟩
     | none =>
-      obtain ⟨e, he⟩ := ih k.dropLast (by simp [hk]) hgd ⟨q, hqd, m, hqm, hmk⟩
-      rw [he]; exact ⟨e, rfl⟩
-    | some nd =>
-      by_cases hnd : nd.kind = .dir
-      · exfalso
-        obtain ⟨m', hm', hmk'⟩ := isDir_iff.1 (prefixes_dirs h (isDir_of_get hgd hnd) q hqd)
-        rw [hqm] at hm'; cases hm'; exact hmk hmk'
-      · -- the parent exists and is not a directory: everything up to it is skipped, then `mkdir` fails
-        have hdne : k.dropLast ≠ [] := by
-          intro h0; rw [h0] at hgd
-          obtain ⟨m', hm', hmk'⟩ := isDir_iff.1 h.root
-          rw [hgd] at hm'; cases hm'; exact hnd hmk'
-        have hpp : isDir t k.dropLast.dropLast = true := h.parent _ nd hgd hdne
-        have h1 := mkdirM_loop_ok h hm _ k.dropLast.dropLast rfl (noBad_of_dir h hpp)
-        rw [mkdirLoop_all_dirs _ _ _ (prefixes_dirs h hpp)] at h1
-        have hxd : Posix.exists t k.dropLast = true := by
-          rw [exists_eq_isSome h hc.links, hgd]; rfl
-        rw [prefixes_dropLast hdne, sforM_append_apply, h1]
-        simp only [sforM_cons_apply, sforM_nil_apply, mkStepS_skip _ hxd]
-        have hw : walkErr t k = some .ENOTDIR := by
-          rw [walkErr_step t hne, walkErr_of_get h hgd]
-          simp only [hgd, hnd, if_false]
-        refine ⟨ioErr .ENOTDIR, ?_⟩
-        unfold mkStepS
-        ssimp [exists_missing hg, Posix.mkdir, hne, hw]
+      have hqd : q ∈ prefixes k.dropLast := by
+        rw [prefixes_dropLast hne, List.mem_append] at hq
+        rcases hq with h1 | h1
+        · exact h1
+        · simp only [List.mem_singleton] at h1; subst h1; rw [hgk] at hqm; cases hqm
+      cases hgd : get t k.dropLast with
+      | none =>
+        obtain ⟨e, he⟩ := ih k.dropLast (by simp [hk]) (fun m hm' => by rw [hgd] at hm'; cases hm')
+          ⟨q, hqd, m, hqm, hmk⟩
+        rw [he]; exact ⟨e, rfl⟩
+      | some nd =>
+        by_cases hnd : nd.kind = .dir
+        · exfalso
+          obtain ⟨m', hm', hmk'⟩ := isDir_iff.1 (prefixes_dirs h (isDir_of_get hgd hnd) q hqd)
+          rw [hqm] at hm'; cases hm'; exact hmk hmk'
+        · by_cases hlt : nd.kind = .link true
+          · -- the parent is a link to a directory: skipped, then `mkdir` fails in the walk
+            have hdne : k.dropLast ≠ [] := ne_nil_of_not_dir hc hgd hnd
+            have hpp : isDir t k.dropLast.dropLast = true := h.parent _ nd hgd hdne
+            have h1 := mkdirM_loop_ok h hm _ k.dropLast.dropLast rfl (noBad_of_dir h hpp)
+            rw [mkdirLoop_all_dirs _ _ _ (prefixes_dirs h hpp)] at h1
+            have hxd : Posix.exists t k.dropLast = true := by
+              rw [exists_eq_isSome h hc.links, hgd]; rfl
+            have hsd : statIsDir t k.dropLast = true := by
+              rw [statIsDir_of_get hc hgd]; simp [hlt]
+            rw [prefixes_dropLast hdne, sforM_append_apply, h1]
+            simp only [sforM_cons_apply, sforM_nil_apply, mkStepS_skip _ hxd hsd]
+            have hw : walkErr t k = some .ENOTDIR := by
+              rw [walkErr_step t hne, walkErr_of_get h hgd]
+              simp only [hgd, hnd, if_false]
+            refine ⟨ioErr .ENOTDIR, ?_⟩
+            unfold mkStepS
+            ssimp [exists_missing hgk, Posix.mkdir, hne, hw]
+          · -- the parent exists and is neither a directory nor a link to one: the loop stops there
+            obtain ⟨e, he⟩ := ih k.dropLast (by simp [hk]) (fun m hm' => by rw [hgd] at hm'; cases hm'; exact hlt)
+              ⟨k.dropLast, self_mem_prefixes _, nd, hgd, hnd⟩
+            rw [he]; exact ⟨e, rfl⟩
 
-/-- `mkdir_m`: covered when the path is missing or already a directory (an existing file or link to a
-    file is finding S2) -/
-theorem sim_mkdirM (h : Ctx env t) (p : Str) (m : Nat) (hm : permOk m = true)
-    (hdom : ∀ a n, resolve env t p = .ok a → get t a = some n → n.kind = .dir ∨ n.kind = .link true) :
+theorem sim_mkdirM (h : Ctx env t) (p : Str) (m : Nat) (hm : permOk m = true) :
     Sim (Stdfs.step env t (.mkdirM p m)) (withPath env t p fun a => liftR .path (TreeFs.mkdir t a m)) := by
   have hm' : m < 0o10000 := by simpa [permOk] using hm
   simp only [Stdfs.step, mkdirM_eq]
   refine sim_withPath h.cwd p _ _ _ ?_
-  intro a ha
+  intro a _
   ssimp
-  cases hg : get t a with
-  | none =>
-    have hl : isLinkToDir t a = false := by unfold isLinkToDir; rw [hg]
+  by_cases hl : isLinkToDir t a = true
+  · unfold TreeFs.mkdir
+    simp only [hl, if_true, liftR]
+    exact sim_unspec _ _
+  · have hl' : isLinkToDir t a = false := by simpa using hl
+    have hnl : ∀ n, get t a = some n → n.kind ≠ .link true := by
+      intro n hg hk
+      unfold isLinkToDir at hl'; simp [hg, hk] at hl'
     rcases noBad_or_bad t a with hnb | hbad
     · obtain ⟨r1, _⟩ := mkdirLoop_res h.wf m _ a rfl hnb
-      rw [mkdir_noBad _ hl hnb, mkdirM_loop_ok h.wf hm' _ a rfl hnb]
+      rw [mkdir_noBad _ hl' hnb, mkdirM_loop_ok h.wf hm' _ a rfl hnb]
       generalize mkdirLoop m (prefixes a) t = res at r1 ⊢
       obtain ⟨e1, t1⟩ := res
       simp only at r1; subst r1
       simp only [liftR]
       exact sim_same (by simp)
-    · obtain ⟨e, he⟩ := mkdirM_loop_bad h hm' _ a rfl hg hbad
-      rw [mkdir_bad _ hl hbad, he]
+    · obtain ⟨e, he⟩ := mkdirM_loop_bad h hm' _ a rfl hnl hbad
+      rw [mkdir_bad _ hl' hbad, he]
       simp only [liftR]
       exact sim_err _ _ (TEquiv.refl _)
-  | some n =>
-    rcases hdom a n ha hg with hk | hk
-    · have hd : isDir t a = true := isDir_of_get hg hk
-      have hl : isLinkToDir t a = false := by unfold isLinkToDir; simp [hg, hk]
-      have hnb := noBad_of_dir h.wf hd
-      rw [mkdir_noBad _ hl hnb, mkdirM_loop_ok h.wf hm' _ a rfl hnb,
-        mkdirLoop_all_dirs _ _ _ (prefixes_dirs h.wf hd)]
-      simp only [liftR]
-      exact sim_same (by simp)
-    · have hl : isLinkToDir t a = true := by unfold isLinkToDir; simp [hg, hk]
-      unfold TreeFs.mkdir
-      simp only [hl, if_true, liftR]
-      exact sim_unspec _ _
 
 end Rivia.Lemmas.StdfsL
